@@ -32,13 +32,13 @@ RULE = ("cases = (random program with delegating / value-dependent methods) x sc
         "controlled schedules with at least one switch")
 ASSUMPTIONS = [
     "two to four threads; the GIL build of CPython 3.12 (no free-threaded build available here)",
-    "threads are switched only at PY_START / CALL (non-inlined) / backward JUMP inside library code",
+    "threads are switched at PY_START / CALL (non-inlined) / backward JUMP inside library code, and at every executed source line of library functions that store to attributes, items or globals (shared state)",
     "every thread has its own copy of the harness bookkeeping (the method-entry log is per thread)",
 ]
 REPORT_COUNTERS = ["cases", "controlled_schedules", "sweep_schedules", "double_preemption_schedules", "random_schedules",
                    "raw_races", "scheduling_points", "switches_forced", "lock_handoffs", "thread_outcomes_compared",
                    "post_run_probe_vectors", "scn_first_call", "scn_miss_same", "scn_miss_diff", "scn_next_chain",
-                   "scn_dependent", "scn_kwonly", "calls_with_keywords", "three_thread_schedules", "timeouts"]
+                   "scn_dependent", "scn_kwonly", "calls_with_keywords", "programs_with_optional_positional", "line_preempted_functions", "three_thread_schedules", "timeouts"]
 
 SCENARIOS = ["first_call", "miss_same", "miss_diff", "next_chain", "dependent", "kwonly"]
 STRATEGIES = ["sweep", "sweep", "double", "random", "raw"]
@@ -92,6 +92,7 @@ WHERE = {}
 
 
 def teardown(res):
+    res.counters["line_preempted_functions"] = max(res.counters["line_preempted_functions"], sched.line_points())
     # pre-emption points reached, by library function (top 12 only, for the evidence)
     for k, v in sorted(WHERE.items(), key=lambda kv: -kv[1])[:12]:
         res.counters["points_in_" + k] += v
@@ -111,6 +112,12 @@ def gen_case(rng, params, idx):
         for m in spec["methods"]:
             for k in m.get("kw", []):
                 k["req"] = False
+    if rng.random() < 0.4:
+        # optional trailing positional parameters: the entry point then needs its defaults
+        for m in spec["methods"]:
+            if rng.random() < 0.5:
+                m["pos"][-1]["opt"] = True
+        spec["has_optional"] = True
     vals = gen.values_for(hier)
     cg = gen.CallGen(spec, vals)
     c0 = cg.call(rng, p_kw=pk)
@@ -201,6 +208,8 @@ def check_case(spec, res):
     calls = spec["calls"][:nthreads]
     seq, ref = _sequential(spec, env, calls)
     res.count("calls_with_keywords", sum(1 for c in calls if c.get("kw")))
+    if spec.get("has_optional"):
+        res.count("programs_with_optional_positional")
 
     def judge(results, prog, label, detail, s=None):
         got = [_norm_result(r) for r in results]
